@@ -628,6 +628,24 @@ def fam_reentrant(g, prefix, n_random):
                 out.append(case("%s-%d" % (prefix, i), steps)); i += 1
     return out
 
+BIG = ["2147483647", "2147483648", "4294967295", "4294967298", "18446744073709551615"]   # around i32 / u32 / usize limits
+
+def fam_big_params(g, prefix, which=("ops", "retry")):
+    """count parameters around the limits of the machine integer types (a narrowing cast, an `n + 1` that wraps)"""
+    out = []
+    i = 0
+    if "ops" in which:
+        for op in ("take", "skip", "take_last", "skip_last", "element_at", "buffer_with_count", "window_with_count"):
+            for b in BIG:
+                for evs in ([n_(1), n_(2), n_(3), C_], [n_(1), e_(5)], [C_]):
+                    g.tag = 0
+                    out.append(case("%s-%d" % (prefix, i), [["sub", [op, b, g.cold(evs)], NOREACT]])); i += 1
+    if "retry" in which:
+        for b in BIG:
+            out.append(case("%s-%d" % (prefix, i), [["counter", "k"], ["sub", ["retry", b, ["flaky", "0", "k", [n_(1), e_(5)], [e_(5)], [e_(5)], [n_(2), C_]]], NOREACT]])); i += 1
+            out.append(case("%s-%d" % (prefix, i), [["counter", "k"], ["sub", ["retry", b, ["map", "inc", ["flaky", "0", "k", [e_(5)], [n_(2), e_(6)], [C_]]]], NOREACT]])); i += 1
+    return out
+
 def fam_reentrant_values(g, prefix, draws=2):
     """single-source operators over a hot subject whose subscriber pushes a further item into (or ends) that subject from
     INSIDE its next callback: the operator's state (flags, counters, last value, latest key) must already be updated
